@@ -1576,6 +1576,13 @@ impl<'a> Model<'a> {
                         //     `ReferenceKind -> evaluate_cell` in the same recalculation
                         //     pass do not observe a different value than what is stored.
                         let is_array_formula = matches!(original_cell, Cell::ArrayFormula { .. });
+                        if is_array_formula {
+                            // The anchor now holds the first element, or the error written instead of
+                            // the array (#SPILL! when the area is blocked): dependents see that
+                            if let Some(stored) = self.fetch_cell(cell_reference).cloned() {
+                                return self.get_cell_value(&stored, cell_reference);
+                            }
+                        }
                         let array_height = a.len();
                         let array_width = if array_height > 0 { a[0].len() } else { 0 };
                         if !is_array_formula && (array_width != 1 || array_height != 1) {
